@@ -4,6 +4,7 @@ import Driver.Keys
 import Driver.Sign
 import Driver.Fetch
 import Driver.Codec
+import Driver.Conc
 /-! `modeldriver <stream>`: reads a trace on stdin, replays it on the model, prints DIFF / SPEC lines
 and a final `SUMMARY` line with the counts of comparisons and predicate evaluations. -/
 open Driver
@@ -56,6 +57,14 @@ partial def codecLoop (h : IO.FS.Stream) (s : Driver.Codec.CSt) : IO Driver.Code
   for m in s.out do IO.println m
   codecLoop h { s with out := #[] }
 
+partial def concLoop (h : IO.FS.Stream) (s : CSt) : IO CSt := do
+  let line ← h.getLine
+  if line.isEmpty then return s
+  let line := if line.back == '\n' then (line.dropEnd 1).toString else line
+  let s := handleConc s line
+  for m in s.out do IO.println m
+  concLoop h { s with out := #[] }
+
 def main (args : List String) : IO UInt32 := do
   let stdin ← IO.getStdin
   match args with
@@ -89,6 +98,11 @@ def main (args : List String) : IO UInt32 := do
   | ["codec"] =>
     let s ← codecLoop stdin {}
     let cs := (s.checks.toList.toArray.qsort (fun a b => a.1 < b.1)).toList.map (fun (k, v) => s!"{k}={v}")
+    IO.println s!"SUMMARY lines={s.lineNo} diffs={s.diffs} specfails={s.specFails} {" ".intercalate cs}"
+    return 0
+  | ["conc"] =>
+    let s ← concLoop stdin {}
+    let cs := s.checks.toList.map (fun (k, v) => s!"{k}={v}")
     IO.println s!"SUMMARY lines={s.lineNo} diffs={s.diffs} specfails={s.specFails} {" ".intercalate cs}"
     return 0
   | _ =>
